@@ -46,6 +46,15 @@ PALETTES = [
     {"name": "edge-specials", "ids": ["-a", "b.", ":c", "'d'"]},
     {"name": "keyword-combos", "ids": ["not-x", "x.not", "2for", "class=1/2"]},
     {"name": "backslash", "ids": ["a\\b", "x/y\\z", "p.q", "9-1"]},
+    # every Python keyword (and soft keyword) as a whole identifier -- `and` / `or` are the operators
+    {"name": "kw-class-else-return-as", "ids": ["class", "else", "return", "as"]},
+    {"name": "kw-pass-assert-break-continue", "ids": ["pass", "assert", "break", "continue"]},
+    {"name": "kw-def-del-elif-except", "ids": ["def", "del", "elif", "except"]},
+    {"name": "kw-finally-from-global-import", "ids": ["finally", "from", "global", "import"]},
+    {"name": "kw-nonlocal-not-raise-try", "ids": ["nonlocal", "not", "raise", "try"]},
+    {"name": "kw-while-with-yield-False", "ids": ["while", "with", "yield", "False"]},
+    {"name": "kw-async-await-is-if", "ids": ["async", "await", "is", "if"]},
+    {"name": "kw-soft-match-case-type-underscore", "ids": ["match", "case", "type", "_"]},
 ]
 
 TIERS = {
